@@ -35,10 +35,15 @@ type c20Param struct {
 	Side    string   `json:"side"`  // bt | gcs
 	Store   string   `json:"store"` // engine / store
 	Threads []string `json:"threads"`
+	Fix     string   `json:"fixture,omitempty"` // "" | wide: 300 rows x 12 cells (a multi-level btree, a scan of four messages)
 }
 
 func (p c20Param) name() string {
-	return fmt.Sprintf("%s:%s:%s", p.Side, p.Store, strings.Join(p.Threads, "|"))
+	f := ""
+	if p.Fix != "" {
+		f = "+" + p.Fix
+	}
+	return fmt.Sprintf("%s:%s%s:%s", p.Side, p.Store, f, strings.Join(p.Threads, "|"))
 }
 
 // ---- Bigtable: direct calls with prebuilt requests (no shared harness state between threads) ---------
@@ -183,6 +188,43 @@ func c20BtThread(S *bttest.VerifServer, d *bt.Driver, name string) func() {
 type c20Fx struct{ rows []*btpb.Row }
 
 var c20BtFixture *c20Fx
+var c20BtFixtureWide *c20Fx
+
+// c20BtRowsWide: 300 rows of 12 cells: the btree engine holds them in a tree of several levels, and a full
+// scan streams four messages (giving up the table lock after rows 86, 172, 258) while deep inside the tree.
+func c20BtRowsWide() []*btpb.Row {
+	if c20BtFixtureWide != nil {
+		return c20BtFixtureWide.rows
+	}
+	d := bt.NewDriver("btree", "")
+	defer d.Close()
+	ops := []bt.Op{{Kind: "CreateTable", Parent: parentI, TableID: "t", Fams: map[string]*bt.GC{"f": nil, "g": {Kind: "maxver", N: 1}}}}
+	for i := 0; i < 300; i++ {
+		var muts []bt.Mut
+		for j := 0; j < 10; j++ {
+			muts = append(muts, mset("f", fmt.Sprintf("q%02d", j), 1000, "v"))
+		}
+		muts = append(muts, mset("g", "x", 2000, "new"), mset("g", "x", 1000, "old"), mset("g", "y", 1000, "w"))
+		k := fmt.Sprintf("a%03d", i)
+		if i >= 150 {
+			k = fmt.Sprintf("b%03d", i)
+		}
+		ops = append(ops, bt.Op{Kind: "MutateRow", Table: tblT, Key: []byte(k), Muts: muts})
+	}
+	for i := range ops {
+		if r := d.Apply(&ops[i]); r.Code != "OK" {
+			panic("c20 wide fixture: " + r.Code + r.Msg + r.Panic)
+		}
+	}
+	f := &c20Fx{}
+	for _, t := range d.S.VerifDump() {
+		for _, r := range t.Rows {
+			f.rows = append(f.rows, proto.Clone(r).(*btpb.Row))
+		}
+	}
+	c20BtFixtureWide = f
+	return f.rows
+}
 
 func c20BtRows() []*btpb.Row {
 	if c20BtFixture != nil {
@@ -225,7 +267,7 @@ func c20Build(c *fw.Ctx, p c20Param) *schedInst {
 	inst := &schedInst{}
 	if p.Side == "bt" {
 		var raw bttest.Rows
-		d := bt.NewDriverOn(p.Store, "", bt.PointStorage{Storage: bt.NewStorage(p.Store, ""), OnCreate: func(n string, r bttest.Rows) {
+		d := bt.NewDriverOn(p.Store, "", bt.PointStorage{Storage: bt.NewStorage(p.Store, ""), Quiet: p.Fix == "wide", OnCreate: func(n string, r bttest.Rows) {
 			if n == tblT {
 				raw = r
 			}
@@ -235,7 +277,11 @@ func c20Build(c *fw.Ctx, p c20Param) *schedInst {
 			"f": {}, "g": {GcRule: (&bt.GC{Kind: "maxver", N: 1}).Proto()}}}}); err != nil {
 			panic(err)
 		}
-		for _, r := range c20BtRows() {
+		fixRows := c20BtRows()
+		if p.Fix == "wide" {
+			fixRows = c20BtRowsWide()
+		}
+		for _, r := range fixRows {
 			raw.ReplaceOrInsert(proto.Clone(r).(*btpb.Row))
 		}
 		vtime.Advance(time.Hour)
@@ -494,10 +540,26 @@ func runC20Race(c *fw.Ctx, item *int64) {
 				scen = append(scen, c20Param{Side: "bt", Store: eng, Threads: []string{c20BtOps[i], c20BtOps[j]}})
 			}
 		}
+		_ = eng
 		if c.Thorough() {
 			for _, tr := range [][]string{{"GetTable", "ModifyCreate", "ModifyDrop"}, {"CreateTable", "DeleteTable", "ListTables"}, {"ReadBig", "DropAll", "MutateRow"}, {"GC", "MutateRow", "ReadBig"}, {"GenToken", "CreateTable", "DeleteTable"}} {
 				scen = append(scen, c20Param{Side: "bt", Store: eng, Threads: tr})
 			}
+		}
+	}
+	// a long scan (four messages, i.e. three lock gaps, deep inside a multi-level tree) against everything that
+	// restructures or replaces the table's storage; every engine, the btree engine included (its scans need not
+	// be consistent under writes, but they must not crash the server)
+	for _, eng := range []string{"btree", "mem"} {
+		ops := []string{"DropAll", "DropPrefix", "DeleteTable", "ModifyDrop", "GC", "MutateRows"}
+		if eng == "mem" && !c.Thorough() {
+			ops = []string{"DropAll", "DropPrefix"}
+		}
+		if c.Thorough() {
+			ops = append(ops, "MutateRow", "RMW", "ReadBig")
+		}
+		for _, o := range ops {
+			scen = append(scen, c20Param{Side: "bt", Store: eng, Fix: "wide", Threads: []string{"ReadBig", o}})
 		}
 	}
 	for _, store := range []string{"mem", "file"} {
